@@ -77,6 +77,8 @@ THEOREMS = [
     'CpProofs.C06.xmlOk_of_same_length',
     'CpProofs.C06.F2_witness_iff',
     'CpProofs.C06.handlerOk_xmlrpc',
+    'CpProofs.C06.endOf_never_nonBytes',
+    'CpProofs.C06.nonbytes_first_item_iff',
     # round 2: nested iterators of any depth, HTTP/1.0, the stages before the page handler
     'CpProofs.C06.flatten_nested_leaves',
     'CpProofs.C06.deliver_nested',
@@ -1132,7 +1134,7 @@ def tables(ctx):
 
 def run(ctx):
     for e in ctx.known:
-        if e.get('status') == 'known' and e.get('witness'):
+        if e.get('status') in ('known', 'fixed') and e.get('witness'):      # (a repaired finding's witness: regression)
             process(ctx, [normalise(e['witness'])])
     process(ctx, corpus_cases())
     procs = ctx.budget(4, 16)
